@@ -14,6 +14,21 @@ def fail(res, clause, case, out, sig=None):
                          'impl_output': out})
 
 
+def scaled_cov_values(nat, dists, x):
+    """what pdf / cdf return if the latent covariance is wrongly scaled by the marginal standard deviations"""
+    import numpy as np
+    from scipy import stats
+    std = np.array([ds.std() for ds in dists])
+    cov = np.diag(std) @ nat.rhoZ @ np.diag(std)
+    mv = stats.multivariate_normal(mean=np.zeros(len(dists)), cov=cov)
+    z = np.array([stats.norm.ppf(ds.cdf(v)) for ds, v in zip(dists, x)])
+    phi = np.prod(stats.norm.pdf(z))
+    return float(np.prod([ds.pdf(v) for ds, v in zip(dists, x)]) / phi * mv.pdf(z)), float(mv.cdf(z))
+
+
+KNOWN_COV = 'C11:pdf-cdf-latent-covariance-scaled-by-marginal-std'
+
+
 def families(rng):
     from scipy import stats
     return [
@@ -116,26 +131,60 @@ def explore(res, rng, n):
         if np.allclose(R, np.eye(d)):
             pm = float(np.prod([ds.pdf(v) for ds, v in zip(dists, x)]))
             cm = float(np.prod([ds.cdf(v) for ds, v in zip(dists, x)]))
+            wp, wc = scaled_cov_values(nat, dists, x)
             if not math.isclose(float(nat.pdf(x)), pm, rel_tol=1e-8, abs_tol=1e-12):
                 fail(res, 'pdf does not factor into the marginals at identity correlation', case, [float(nat.pdf(x)), pm],
-                     sig='C11:pdf-not-factorising')
+                     sig=KNOWN_COV if math.isclose(float(nat.pdf(x)), wp, rel_tol=1e-9) else None)
             if not math.isclose(float(nat.cdf(x)), cm, rel_tol=1e-6, abs_tol=1e-9):
                 fail(res, 'cdf does not factor into the marginals at identity correlation', case, [float(nat.cdf(x)), cm],
-                     sig='C11:cdf-not-factorising')
+                     sig=KNOWN_COV if math.isclose(float(nat.cdf(x)), wc, rel_tol=1e-6, abs_tol=1e-9) else None)
         if d == 1:
             lo, hi = dists[0].ppf(1e-10), dists[0].ppf(1 - 1e-10)
             tot, _ = integrate.quad(lambda t: float(nat.pdf([t])), lo, hi, limit=200)
             if abs(tot - 1) > 1e-5:
-                fail(res, 'pdf does not integrate to one', case, tot, sig='C11:pdf-not-normalised')
+                xm = [dists[0].ppf(0.7)]
+                fail(res, 'pdf does not integrate to one', case, tot,
+                     sig=KNOWN_COV if math.isclose(float(nat.pdf(xm)), scaled_cov_values(nat, dists, xm)[0], rel_tol=1e-9) and abs(dists[0].std() - 1) > 1e-9 else None)
         if d == 2 and i % 4 == 0:
             lo = [ds.ppf(1e-6) for ds in dists]; hi = [ds.ppf(1 - 1e-6) for ds in dists]
             tot, _ = integrate.dblquad(lambda b, a: float(nat.pdf([a, b])), lo[0], hi[0], lo[1], hi[1], epsabs=1e-5, epsrel=1e-5)
+            unit = all(abs(ds.std() - 1) < 1e-9 for ds in dists)
+            xm = [ds.ppf(0.6) for ds in dists]
+            scaled = (not unit) and math.isclose(float(nat.pdf(xm)), scaled_cov_values(nat, dists, xm)[0], rel_tol=1e-9)
             if abs(tot - 1) > 2e-3:
-                fail(res, 'pdf does not integrate to one', case, tot, sig='C11:pdf-not-normalised')
+                fail(res, 'pdf does not integrate to one', case, tot, sig=KNOWN_COV if scaled else None)
             mid = [ds.ppf(0.6) for ds in dists]
             part, _ = integrate.dblquad(lambda b, a: float(nat.pdf([a, b])), lo[0], mid[0], lo[1], mid[1], epsabs=1e-5, epsrel=1e-5)
             if abs(part - float(nat.cdf(mid))) > 2e-3:
-                fail(res, 'cdf is not the integral of the pdf', case, [part, float(nat.cdf(mid))], sig='C11:cdf-not-integral-of-pdf')
+                fail(res, 'cdf is not the integral of the pdf', case, [part, float(nat.cdf(mid))], sig=KNOWN_COV if scaled else None)
+
+
+def fallback_search(res):
+    """the last-resort root search: make the first two fsolve calls report failure (fault injected from outside)"""
+    core.import_impl()
+    from unittest import mock
+    from scipy import stats, optimize
+    from ffpack import rpm
+    from ffpack.rpm import nataf as natmod
+    real = optimize.fsolve
+    calls = {'n': 0}
+
+    def flaky(*a, **k):
+        calls['n'] += 1
+        out = real(*a, **k)
+        if calls['n'] <= 2:
+            return (out[0], out[1], 5, 'injected failure')
+        return out
+    res.evaluations += 1
+    try:
+        with mock.patch.object(natmod.optimize, 'fsolve', side_effect=flaky):
+            nat = rpm.NatafTransformation([stats.norm(), stats.expon()], [[1.0, 0.4], [0.4, 1.0]])
+        if not (0.3 < nat.rhoZ[0, 1] < 0.6):
+            fail(res, 'fallback root search stored a wrong latent correlation', {'corr': 0.4}, float(nat.rhoZ[0, 1]))
+    except ValueError as e:
+        fail(res, 'admissible correlation rejected when the first two root searches fail (fallback search always raises)',
+             {'marginals': ['norm', 'expon'], 'corr': 0.4, 'fault': 'first two fsolve calls report ier != 1'}, str(e),
+             sig='C11:fallback-root-search-always-raises')
 
 
 def run(tier, seed):
@@ -145,6 +194,7 @@ def run(tier, seed):
     core.prove(res, PID, MODULES, clean=(tier == 'thorough'))
     n = 14 if tier == 'quick' else 400
     explore(res, random.Random(seed), n)
+    fallback_search(res)
     res.traces = res.evaluations
     res.disagreements_checked = res.evaluations
     res.trusted += ['theorems are about the exact maps with abstract marginals (cdf, ppf, pdf), standard normal cdf/pdf and a Cholesky factor; the '
